@@ -19,49 +19,103 @@ import (
 	vs "github.com/ProjectSerenity/firefly/kernel/internal/verifsched"
 )
 
+// Per-thread phases of the lock protocol as the harness sees it. A call takes effect at some moment between its
+// invocation and its return (it may consist of several atomic steps), so the judgements below are the linearizability
+// ones: they only use what is certain from invocations and returns.
+const (
+	phIdle    = iota
+	phAcquire // inside a blocking Acquire call
+	phTry     // inside a TryToAcquire call
+	phHolding // from the return of a successful acquire/try to the return of the Release call
+)
+
+type vf08Pending struct {
+	Tid   int
+	Cands uint64 // calls of other threads that overlapped the failed try and have not returned yet
+}
+
 type vf08World struct {
 	l       Spinlock
 	holders int
-	owner   int // thread inside its critical section (between successful acquire and release), -1 none
+	owner   int // thread between the return of its successful acquire and the invocation of its release, -1 none
 	shared  int
 	done    int
 	lie     string
 	n       int
 	tries   []int // per-thread: number of failed try-acquires
-	// a try-acquire in progress (between its invocation and its return) and whether anybody held the lock at some
-	// moment of that interval: a false result is a lie only if nobody did (the call may take several atomic steps)
-	trying    []bool
-	sawHeld   []bool
-	acquiring []bool // a blocking Acquire is in progress: it may take effect at any moment before it returns
-}
-
-// overlap marks every try-acquire in progress as having overlapped a holder (or a caller about to become one).
-func (w *vf08World) overlap() {
-	for i := range w.trying {
-		if w.trying[i] {
-			w.sawHeld[i] = true
-		}
-	}
-}
-
-func (w *vf08World) anyAcquiring(except int) bool {
-	for i, a := range w.acquiring {
-		if a && i != except {
-			return true
-		}
-	}
-	return false
-}
-
-// took records that tid is now inside the lock: every try-acquire in progress has overlapped a holder.
-func (w *vf08World) took(tid int) {
-	w.owner = tid
-	w.overlap()
+	phase   []int
+	// for a TryToAcquire in progress: did another thread hold the lock at some moment of the call so far, and which
+	// calls of other threads (that may still take the lock) overlapped it
+	sawHeld []bool
+	cands   []uint64
+	// failed tries that nobody is known to justify yet: one of the overlapping calls must turn out to have taken the lock
+	pending []vf08Pending
 }
 
 func (w *vf08World) reset() {
 	n := w.n
-	*w = vf08World{owner: -1, n: n, tries: make([]int, n), trying: make([]bool, n), sawHeld: make([]bool, n), acquiring: make([]bool, n)}
+	*w = vf08World{owner: -1, n: n, tries: make([]int, n), phase: make([]int, n), sawHeld: make([]bool, n), cands: make([]uint64, n)}
+}
+
+// enter records that tid starts a call (ph) or starts holding the lock: every TryToAcquire in progress overlaps it.
+func (w *vf08World) enter(tid, ph int) {
+	w.phase[tid] = ph
+	for i := range w.phase {
+		if i == tid || w.phase[i] != phTry {
+			continue
+		}
+		if ph == phHolding {
+			w.sawHeld[i] = true
+		} else {
+			w.cands[i] |= 1 << uint(tid)
+		}
+	}
+	if ph == phTry {
+		w.sawHeld[tid], w.cands[tid] = false, 0
+		for i, p := range w.phase {
+			switch {
+			case i == tid:
+			case p == phHolding:
+				w.sawHeld[tid] = true
+			case p == phAcquire || p == phTry:
+				w.cands[tid] |= 1 << uint(i)
+			}
+		}
+	}
+}
+
+// returned records that tid's call returned; acquired says whether it took the lock. A call that took the lock justifies
+// every failed try it overlapped; one that did not is struck from their candidate lists, and a failed try left without
+// any candidate was a lie.
+func (w *vf08World) returned(tid int, acquired bool) {
+	bit := uint64(1) << uint(tid)
+	var keep []vf08Pending
+	for _, p := range w.pending {
+		switch {
+		case p.Cands&bit == 0:
+			keep = append(keep, p)
+		case acquired:
+			// justified
+		default:
+			p.Cands &^= bit
+			if p.Cands == 0 {
+				if w.lie == "" {
+					w.lie = fmt.Sprintf("TryToAcquire returned false to T%d although nobody held the lock at any moment of the call", p.Tid)
+				}
+			} else {
+				keep = append(keep, p)
+			}
+		}
+	}
+	w.pending = keep
+	for i := range w.phase {
+		if i != tid && w.phase[i] == phTry && w.cands[i]&bit != 0 {
+			if acquired {
+				w.sawHeld[i] = true
+			}
+			w.cands[i] &^= bit
+		}
+	}
 }
 
 func (w *vf08World) cs(tid int) {
@@ -81,42 +135,52 @@ func (w *vf08World) prog(tid int, ops string) func() {
 			vs.Progress(i + 1)
 			switch o {
 			case 'A':
-				w.acquiring[tid] = true
-				w.overlap()
+				w.enter(tid, phAcquire)
 				w.l.Acquire()
-				w.acquiring[tid] = false
 				if w.owner != -1 && w.lie == "" {
 					w.lie = fmt.Sprintf("Acquire returned to T%d while T%d holds the lock", tid, w.owner)
 				}
-				w.took(tid)
+				w.returned(tid, true)
+				w.enter(tid, phHolding)
+				w.owner = tid
 				w.cs(tid)
+				w.owner = -1 // from the invocation of Release on, the lock may already be free
 				w.l.Release()
-				w.owner = -1 // same scheduler step as the releasing store
+				w.phase[tid] = phIdle
 			case 'T':
-				w.trying[tid], w.sawHeld[tid] = true, w.owner != -1 || w.anyAcquiring(tid)
+				w.enter(tid, phTry)
 				ok := w.l.TryToAcquire()
-				w.trying[tid] = false
-				// the swap and this code run in one scheduler step: the world is as it was at the swap
+				w.returned(tid, ok)
 				if ok {
 					if w.owner != -1 && w.lie == "" {
 						w.lie = fmt.Sprintf("TryToAcquire returned true to T%d while T%d holds the lock", tid, w.owner)
 					}
-					w.took(tid)
+					w.enter(tid, phHolding)
+					w.owner = tid
 					w.cs(tid)
-					w.l.Release()
 					w.owner = -1
+					w.l.Release()
+					w.phase[tid] = phIdle
 				} else {
+					w.phase[tid] = phIdle
 					w.tries[tid]++
-					if !w.sawHeld[tid] && w.lie == "" {
+					switch {
+					case w.sawHeld[tid]:
+					case w.cands[tid] != 0:
+						w.pending = append(w.pending, vf08Pending{tid, w.cands[tid]})
+					case w.lie == "":
 						w.lie = fmt.Sprintf("TryToAcquire returned false to T%d although nobody held the lock at any moment of the call", tid)
 					}
 				}
 			case 'R': // release of a free lock (single-thread scenarios only): no effect
-				before := w.l
 				w.l.Release()
-				if w.l != before && w.lie == "" {
-					w.lie = "Release of a free lock changed its state"
-				}
+				probe := new(Spinlock) // still free afterwards: judged by a try-acquire on a copy
+				*probe = w.l
+				vs.Unscheduled(func() {
+					if !probe.TryToAcquire() && w.lie == "" {
+						w.lie = "Release of a free lock changed its state: the lock can no longer be taken"
+					}
+				})
 			}
 		}
 		vs.Progress(99)
@@ -147,7 +211,7 @@ func vf08Setup(w *vf08World, progs []string, yield bool) (func() []func(), *vs.S
 	}
 	s := &vs.Sched{}
 	s.StateFn = func() string {
-		return fmt.Sprintf("%v,%d,%d,%d,%d,%v,%v,%v,%v", w.l, w.holders, w.shared, w.done, w.owner, w.tries[:len(progs)], w.trying[:len(progs)], w.sawHeld[:len(progs)], w.acquiring[:len(progs)])
+		return fmt.Sprintf("%v,%d,%d,%d,%d,%v,%v,%v,%v", w.l, w.holders, w.shared, w.done, w.owner, w.tries, w.phase, w.sawHeld, w.cands, w.pending)
 	}
 	s.Monitor = func() string {
 		if w.holders > 1 {
